@@ -123,6 +123,7 @@ def run(tier):
     rule_R2(res, prog, cg, consts, runs)
     rule_R3(res, prog, cg, consts, runs)
     rule_R1(res, prog, cg, consts, tr, eng)
+    rule_R4(res, prog)
     return res.finish()
 
 
@@ -351,3 +352,67 @@ def rule_R1(res, prog, cg, consts, tr, eng):
                          file=f.relfile, line=f.line, path=list(p))
             res.instance("C15.R1", desc, False, finding=fd)
     res.floor("C15.R1", 8)
+
+
+def rule_R4(res, prog):
+    """No error path reports success: in the API functions that translate session state into a return code, a return
+    code that asks the application to close (MATRIXSSL_REQUEST_CLOSE, selected when a fatal alert or close_notify has
+    just been flushed) is never overwritten by a success code on the way to the return."""
+    from sa import cfgutil as cu
+    from sa.pp import pp
+    res.rule("C15.R4", "a selected MATRIXSSL_REQUEST_CLOSE return code reaches the return unchanged (not replaced by a success code)")
+    CLOSE = prog.const("MATRIXSSL_REQUEST_CLOSE")
+
+    def returns_var(fn, var):
+        """the variable is what the (public API) function returns"""
+        for b in fn.blocks:
+            for el in b["el"]:
+                x = el["x"]
+                if x.get("k") == "ret" and x.get("e") is not None and (strip(x["e"]) or {}).get("id") == var.get("id"):
+                    return True
+        return False
+    n = 0
+    for fn in sorted(prog.functions.values(), key=lambda f: f.qname):
+        if not fn.relfile.startswith("matrixssl/"):
+            continue
+        sites = []
+        for b in fn.blocks:
+            for i, ln, x in cu.block_exprs(b):
+                x0 = strip(x)
+                if x0 is not None and x0.get("k") == "bin" and x0["op"] == "=" and (strip(x0["l"]) or {}).get("k") == "var" \
+                        and (strip(x0["r"]) or {}).get("k") == "int" and strip(x0["r"])["v"] == CLOSE \
+                        and fn.api and returns_var(fn, strip(x0["l"])):
+                    sites.append((b["id"], i, ln, strip(x0["l"])))
+        for (bid, idx, ln, var) in sites:
+            n += 1
+
+            def overwrites(x, var=var):
+                for nd in walk(x):
+                    if nd.get("k") == "bin" and nd["op"] == "=" and (strip(nd["l"]) or {}).get("id") == var.get("id"):
+                        r = strip(nd["r"])
+                        if not (r is not None and r.get("k") == "int" and r["v"] == CLOSE):
+                            return True
+                return False
+
+            def guarded_edge(b, k, var=var):
+                # an edge on which `var != REQUEST_CLOSE` is known cannot carry the close code
+                t = b.get("term")
+                if t is None or "c" not in t or len(b["succ"]) != 2:
+                    return False
+                for (txt, tr, nd) in cu._cond_atoms(t["c"], k == 0):
+                    if txt == "(%s != %d)" % (var["n"], CLOSE) and tr:
+                        return True
+                    if txt == "(%s == %d)" % (var["n"], CLOSE) and not tr:
+                        return True
+                return False
+            path = cu.escapes(fn, (bid, idx), lambda x: False, exempt_edge=guarded_edge, target_expr=overwrites)
+            f_ = None
+            if path is not None:
+                f_ = Finding(PROP, "C15.R4", fn.name, "REQUEST_CLOSE overwritten before the return",
+                             "%s: the return code MATRIXSSL_REQUEST_CLOSE selected at line %s can be overwritten at line %s on the way to "
+                             "the return: a session that has just flushed a fatal alert reports success to the application" % (
+                                 fn.name, ln, path[-1][1]), file=fn.relfile, line=ln)
+            res.instance("C15.R4", "%s: %s = MATRIXSSL_REQUEST_CLOSE at line %s survives to the return" % (fn.name, var["n"], ln),
+                         path is None, finding=f_)
+    res.floor("C15.R4", 1)
+
